@@ -1,6 +1,7 @@
 import Comdex.Lemmas.LiqOrders
 import Comdex.Lemmas.LiqAmmBridge
 import Comdex.Lemmas.LiqIndex
+import Comdex.Lemmas.LiqFee
 /-!
 # C07 — Every order is settled exactly: fills, refunds and swap fees add up
 
@@ -16,6 +17,10 @@ Property clause → theorem
   fee reserve not attributable to the executed portion"
       → `finish_moves_exactly` (what `FinishOrder` pays to whom), `fill_pays_demand_coins` (each fill's demand coins go to
         the owner), `terminated_settled` (ledger of every ended order, any history)
+* (swap fee at batch execution and in every message, end to end)
+      → `fee_collector_exact` (every operation: the pair's swap-fee collector grows by exactly the fee on the executed portions of
+        the orders of that pair that ended in the step), `pruning_moves_nothing`, `ended_order_accounts` (escrow out = refund to
+        the owner + fee to the collector = remaining + reserve, in balances of a reachable state)
 * "nothing of a terminated order remains in escrow"
       → `terminated_settled` (taken = spent + refunded + forwarded) with `escrow_holds_only_live_orders`
 * "an order that is not in its placement batch can always be cancelled by its owner"
@@ -177,6 +182,47 @@ theorem cancel_all_cancels_every_old_order {cfg : Cfg} {s s' : State} {app user 
       ∀ o', s'.order? k = some o' → o'.status.live = false) ∧
     (¬ o.batch < pp.curBatch → s'.order? k = some o) :=
   cancelAll_all h k o pp ho hp
+
+/-! ### the swap-fee collector -/
+
+/-- **The swap-fee collector of a pair, every message and every block hook**: for every operation other than the begin-block
+pruning, the balance of the pair's swap-fee collector in denom `d` plus the fee attributable to the executed portions of the
+orders that were ALREADY ended before = its balance before plus that of the orders ended after — it grows by exactly
+`Σ ⌊executed·feeRate⌋` over the orders of the pair (offer denom `d`) that ended in this step: cancels, cancel-all, MM cancel /
+replace, and at batch execution the expiry pre-pass, completed fills and the expiry / too-small sweep.  Partially filled
+orders that stay live forward nothing (their whole reserve stays in escrow: `escrow_holds_only_live_orders`). -/
+theorem fee_collector_exact (cfg : Cfg) (s : State) (op : Op) (a p : Nat) (d : Denom) (hop : ∀ x, op ≠ .beginBlock x) :
+    (stepT cfg s op).bal (.swapFee a p) d + fwdSum cfg a p d s.orders =
+      s.bal (.swapFee a p) d + fwdSum cfg a p d (stepT cfg s op).orders := by
+  unfold stepT
+  cases hs : step cfg s op with
+  | none => simp
+  | some s' => simp only [Option.getD_some]; exact step_feeEq a p d hop hs
+
+/-- the begin-block pruning moves no coin at all (it deletes ended orders and executed requests) -/
+theorem pruning_moves_nothing (cfg : Cfg) (s : State) (app : Nat) : (stepT cfg s (.beginBlock app)).bank = s.bank := rfl
+
+/-- **End to end for one ended order, against the account balances**: when a live order of a reachable state is ended, the
+escrow gives up exactly remaining + reserve, of which exactly `⌊executed·rate⌋` reaches the swap-fee collector and exactly
+the rest — the unspent offer coin plus the part of the reserve not attributable to the executed portion — reaches the owner;
+`taken = executed + that refund + that fee`. -/
+theorem ended_order_accounts {cfg : Cfg} (hc : CfgOk cfg) (funds : List (Nat × Nat × Nat)) (ops : List Op)
+    {k : OKey} {st : OStatus} {o : Order} {s' : State}
+    (ho : (after cfg funds ops).order? k = some o) (hl : o.status.live = true)
+    (h : finishOrder cfg (after cfg funds ops) k st = some s') :
+    let r := rateOf cfg o.app
+    let refund := o.remaining + (feeRes r o - fwdSpec r o)
+    s'.bal (.user o.owner) o.od = (after cfg funds ops).bal (.user o.owner) o.od + refund ∧
+    s'.bal (.swapFee o.app o.pair) o.od = (after cfg funds ops).bal (.swapFee o.app o.pair) o.od + fwdSpec r o ∧
+    s'.bal (.pairEscrow o.app o.pair) o.od + refund + fwdSpec r o = (after cfg funds ops).bal (.pairEscrow o.app o.pair) o.od ∧
+    o.taken = (o.offer - o.remaining) + refund + fwdSpec r o := by
+  have hi := reachable_inv hc funds ops
+  obtain ⟨m1, m2, m3⟩ := finish_moves_exactly hi ho hl h
+  obtain ⟨ht, hle, -, -⟩ := hi.ords o (order?_some ho).1
+  have := fwdSpec_le (rateOf cfg o.app) o
+  refine ⟨m1, m2, ?_, ?_⟩
+  · omega
+  · rw [ht]; omega
 
 /-! ### index completeness as an inductive invariant, and what it gives for `MsgCancelMMOrder` / `MsgMMOrder` -/
 
@@ -412,6 +458,16 @@ example : ((after (cfgD4 false) fundsD4 opsLife).orders.map fun o => (o.id, o.st
 example : (after (cfgD4 false) fundsD4 opsLife).bal (.pairEscrow 1 1) (.coin 1) = 0 ∧
     (after (cfgD4 false) fundsD4 opsLife).bal (.swapFee 1 1) (.coin 1) = 1200 ∧
     (after (cfgD4 false) fundsD4 opsLife).bal (.user 1) (.coin 1) = 10000000 - 1003000 + 601800 := by
+  decide +kernel
+
+/-- non-vacuity of `fee_collector_exact`: the batch of `opsLife` completes the buyer (fee 1200 of coin 2 forwarded in the batch),
+the later cancel of the partially filled seller forwards 1200 of coin 1 -/
+example :
+    (after (cfgD4 false) fundsD4 (opsLife.take 4)).bal (.swapFee 1 1) (.coin 2) = 0 ∧
+    (after (cfgD4 false) fundsD4 (opsLife.take 5)).bal (.swapFee 1 1) (.coin 2) = 1200 ∧
+    fwdSum (cfgD4 false) 1 1 (.coin 2) (after (cfgD4 false) fundsD4 (opsLife.take 5)).orders = 1200 ∧
+    fwdSum (cfgD4 false) 1 1 (.coin 1) (after (cfgD4 false) fundsD4 (opsLife.take 5)).orders = 0 ∧
+    fwdSum (cfgD4 false) 1 1 (.coin 1) (after (cfgD4 false) fundsD4 opsLife).orders = 1200 := by
   decide +kernel
 
 /-- the partially filled seller of `opsLife` lives through the migration and cancels afterwards: refunded 600 000 + (3000 − 1200),
